@@ -744,12 +744,19 @@ func c12IDs(w *core.W, j int) {
 	// datagrams: 0..5 stale/duplicate/foreign replies before the real one
 	n := r.IntN(6)
 	var script [][]byte
+	nDamaged := 0
 	for i := 0; i < n; i++ {
-		switch r.IntN(3) {
+		switch r.IntN(4) {
 		case 0:
 			script = append(script, mk(q.Id^uint16(1+r.IntN(65535)), "foreign"))
 		case 1:
 			script = append(script, mk(q.Id-1, "stale"))
+		case 2:
+			// a reply with another ID whose body does not decode (cut inside the question or the TXT
+			// record, at least a full header): it has an ID, it is not ours, it is skipped like the others
+			f := mk(q.Id^uint16(1+r.IntN(65535)), "foreign-damaged")
+			script = append(script, f[:12+r.IntN(len(f)-13)+1])
+			nDamaged++
 		default:
 			if len(script) > 0 {
 				script = append(script, script[r.IntN(len(script))])
@@ -768,6 +775,7 @@ func c12IDs(w *core.W, j int) {
 	}
 	w.Eval(1)
 	w.Count("datagram_scripts", 1)
+	w.Count("datagram_undecodable_foreign_replies", nDamaged)
 	w.NontrivialStr("ids", fmt.Sprint(j))
 	var rep *dns.Msg
 	var err error
@@ -790,7 +798,11 @@ func c12IDs(w *core.W, j int) {
 	}
 	if withReal {
 		if err != nil || rep == nil || rep.Id != q.Id {
-			w.Violation("C12/datagram-real-reply-missed", fmt.Sprintf("%d other replies preceded the matching one; err=%v", n, err), nil)
+			key := "C12/datagram-real-reply-missed"
+			if nDamaged > 0 {
+				key += "/undecodable-foreign-reply"
+			}
+			w.Violation(key, fmt.Sprintf("%d other replies (%d of them with a body that does not decode) preceded the matching one; err=%v", n, nDamaged, err), map[string]any{"script": hxs(script)})
 		} else if txt := rep.Extra[0].(*dns.TXT).Txt[0]; txt != "real" {
 			w.Violation("C12/datagram-wrong-reply", fmt.Sprintf("got the reply tagged %q", txt), nil)
 		}
